@@ -437,6 +437,30 @@ fn p02(p: &mut ProbeReport, r: &mut Rng, budget: usize) {
 // ---------------- C03: any prefix of any title word finds the record ----------------
 fn p03(p: &mut ProbeReport, r: &mut Rng, budget: usize) {
     for code in LANGS.iter() { small_scope_titles(p, code, "C03", if budget > 20000 { 3 } else { 2 }); }
+    // a tiny vocabulary: eight records whose titles are the same short word (fewer distinct grams in the whole index
+    // than records), limit 10: every prefix finds every one of them
+    for code in LANGS.iter() {
+        let v = vocab(code);
+        let w: String = (0..r.range(2, 3)).map(|_| *r.pick(&v.letters)).collect();
+        let up: String = w.to_uppercase();
+        let recs: Vec<(usize, String, usize)> = (0..8).map(|i| (i + 1, match i % 4 { 0 => w.clone(), 1 => up.clone(), 2 => format!("{}!", w), _ => format!("{}.", w) }, 10 + i)).collect();
+        let lang = make_lang(code);
+        let tw = tokenize_record(&w, &lang);
+        if tw.words.len() != 1 { continue; }
+        let cs = wchars(&tw, 0);
+        let scn = Scn { lang: code.to_string(), recs: recs.clone(), limit: 10 };
+        let st = scn.build();
+        for k in 1..=cs.len() {
+            let q: String = cs[..k].iter().collect();
+            if !one_word_query(&lang, &q, &cs[..k], true) { continue; }
+            let hits = ids(&search_results(&st, &q));
+            p.eval(&format!("{}|tiny-vocab|{}|{}", code, w, q), true);
+            if let Some(missing) = recs.iter().find(|e| tokenize_record(&e.1, &lang).words.len() == 1 && !hits.contains(&e.0)) {
+                p.fail(format!("eight records titled like {:?}, limit 10: prefix {:?} does not find record {} {:?}; hits {:?}", w, q, missing.0, missing.1, hits), scn.case("c03-tiny-vocabulary", vec![Op::Search(q.clone())]));
+                break;
+            }
+        }
+    }
     // inflected words (stem shorter than the word): every prefix, in particular the one of exactly the stem length
     for code in LANGS.iter().filter(|c| **c != "none") {
         let v = vocab(code);
@@ -1159,10 +1183,18 @@ fn p09(p: &mut ProbeReport, r: &mut Rng, budget: usize) {
         let t0 = scn.recs.last().unwrap().1.clone();
         let q = match (late, r.below(6)) { (Some(w), _) => w, (None, 0) => String::new(), (None, 1) => " - ".to_string(), _ => query_for(&v, r, &t0) };
         let qwords = tokenize_query(&q, &lang).words.len();
-        let hits = search_marked(&mut st, &q);
+        // every fifth store is configured, emptied and refilled before it is asked: the markers are a setting of the
+        // store, not of its contents
+        let refilled = i % 5 == 0;
+        let hits = if refilled {
+            st.highlight_with((&ML.to_string(), &MR.to_string()));
+            st.clear();
+            for (id, t, rt) in &scn.recs { add_to(&mut st, *id, t, *rt); }
+            search_results(&st, &q)
+        } else { search_marked(&mut st, &q) };
         for (id, title) in &hits {
             p.eval(&format!("{}|{}|{}", code, q, title), title.contains(ML));
-            let mk = |what: String| (what, scn.case("c09", vec![Op::Markers(ML.to_string(), MR.to_string()), Op::Search(q.clone())]));
+            let mk = |what: String| (what, if refilled { let mut ops = vec![Op::Markers(ML.to_string(), MR.to_string()), Op::Clear]; for (id, t, rt) in &scn.recs { ops.push(Op::Add(*id, *rt, t.clone())); } ops.push(Op::Search(q.clone())); scn.case("c09-refilled", ops) } else { scn.case("c09", vec![Op::Markers(ML.to_string(), MR.to_string()), Op::Search(q.clone())]) });
             let (plain, spans) = match parse_marked(title) { Some(x) => x, None => { let (w, c) = mk(format!("markers unbalanced or nested in {:?}", title)); p.fail(w, c); continue; } };
             if qwords == 0 && !spans.is_empty() { let (w, c) = mk(format!("empty query but highlighted: {:?}", title)); p.fail(w, c); }
             if qwords > 0 && spans.is_empty() { let (w, c) = mk(format!("hit without any highlighted span: {:?} for {:?}", title, q)); p.fail(w, c); }
